@@ -300,7 +300,10 @@ func genC08(c *Ctx) error {
 
 func c08One(c *Ctx) error {
 	rng := c.Rng
-	cw, err := newCCWorld()
+	// the switch for multi-swaps does not concern single swaps: one world in three has it set
+	o := ChanOpts{DisableMultiSwaps: c.Rng.Intn(3) == 0}
+	c.Count(fmt.Sprintf("multi_swaps_switched_off_%v", o.DisableMultiSwaps))
+	cw, err := newCCWorldOpts(o)
 	if err != nil {
 		return err
 	}
@@ -456,7 +459,10 @@ type swKeyT struct {
 
 func c08Two(c *Ctx) error {
 	rng := c.Rng
-	cw, err := newCCWorld()
+	// the switch for multi-swaps does not concern single swaps: one world in three has it set
+	o := ChanOpts{DisableMultiSwaps: c.Rng.Intn(3) == 0}
+	c.Count(fmt.Sprintf("multi_swaps_switched_off_%v", o.DisableMultiSwaps))
+	cw, err := newCCWorldOpts(o)
 	if err != nil {
 		return err
 	}
